@@ -23,7 +23,8 @@ ATOMS = ['string', 'number', 'boolean', 'object', 'bigint', 'symbol', 'null', 'u
          'Partial<Rec0>', 'Required<Rec0>', 'Readonly<Rec0>', 'Record<string, number>', 'Pick<Rec0, "a">', 'Omit<Rec0, "a">', 'InstanceType<typeof Cls0>',
          'Uppercase<"a">', 'Lowercase<"A">', 'Capitalize<"a">', 'Uncapitalize<"A">', 'Parameters<typeof fn0>', 'ConstructorParameters<typeof Cls0>',
          'NonNullable<string | null>', 'NonNullable<null>', 'NonNullable<Al0 | undefined>', 'Exclude<string | number, number>', 'Extract<string | number, number>', 'Extract<string | Date, object>', 'Extract<number | string[], {}>', 'Extract<string | number, unknown>',
-         'Extract<(() => void) | string, object>', 'Extract<Al2, object>', 'Exclude<string | Date | null, null>', 'Exclude<Al0, string>', 'OmitThisParameter<() => void>',
+         'Extract<(() => void) | string, object>', '{ (v: string): boolean } & Rec0', 'Rec0 & { new (): object }', 'If1 & { a?: string }', '(() => void) & { once?: boolean }', '{ a: string } & { b: number }', 'Rec0 & If0',
+         'string & {}', '{ __brand: "x" } & number', 'Extract<Al2, object>', 'Exclude<string | Date | null, null>', 'Exclude<Al0, string>', 'OmitThisParameter<() => void>',
          'Al0', 'Al1', 'Al2', 'If0', 'If1', 'If2', 'Rec0', 'Cls0', 'Imported0', 'Rec0["a"]', 'Rec0["a" | "b"]', 'Rec0[string]', 'If0["m"]', 'string[][number]', '[string, number][0]', '[string, boolean][number]',
          'Array<Date>[number]', 'Al3["x"]', 'If0[string]', 'If0["a" | "m"]', 'Al4["go"]', 'Al4[Keys0]', 'If3', 'If3["a"]', 'If4', '[string, ...number[]][number]', '[string, ...Date[]][0]', 'Tup0[1]', 'Tup0[number]',
          'Arr0[number]', '{ a: string; f(): void }["f"]', 'If5', '(string)', '(string | number)[]', 'keyof Rec0', 'typeof fn0']
@@ -142,6 +143,9 @@ def inhabitants(te, t, depth=0):
             for p in parts:
                 out |= p
             return out
+        # a callable type intersected with object-like types: its values are functions (that carry the extra properties)
+        if any(p == {'function'} for p in parts) and all(p == {'function'} or 'object' in p for p in parts):
+            return {'function'}
         out = set(ALL)
         for p in parts:
             out &= p
